@@ -5,13 +5,20 @@ present in the image-up-to-layer view of every layer from L to the last.
 import Scalibr.Model.Trace
 namespace Scalibr.Trace
 
-def has (v : Option (List Pkg)) (p : Pkg) : Bool :=
-  match v with
-  | some ps => ps.contains p
-  | none => false
+/-- The specification's own reading of "the image-up-to-layer view of a file" (it does not use the
+model's `viewAt`/`applyOp`): scanning DOWN from layer `i`, the latest layer at or below `i` that touches
+the file decides. -/
+def lastTouch (h : History) : Nat → Option Op
+  | 0 => (match h[0]? with | some Op.keep => none | r => r)
+  | i+1 => (match h[i+1]? with | some Op.keep => lastTouch h i | none => lastTouch h i | r => r)
 
-/-- the package is in the view up to layer `i` -/
-def present (h : History) (i : Nat) (p : Pkg) : Bool := has (viewAt h i) p
+/-- the package is in the view up to layer `i`: the latest touch wrote the file (as a regular file or
+as a symlink to a list) with the package in it -/
+def present (h : History) (i : Nat) (p : Pkg) : Bool :=
+  match lastTouch h i with
+  | some (.write ps) => ps.contains p
+  | some (.link ps) => ps.contains p
+  | _ => false
 
 /-- `L` is the origin: within range, present in every view from `L` on, and least such -/
 def IsOrigin (h : History) (p : Pkg) (L : Nat) : Prop :=
@@ -30,6 +37,13 @@ def alignSpec : List HEntry → (v hi : Nat) → List ChainMeta
   | e :: rest, v, hi =>
     if e.empty then ⟨hi, none, e.cmd⟩ :: alignSpec rest v (hi+1)
     else ⟨hi, some v, e.cmd⟩ :: alignSpec rest (v+1) (hi+1)
+
+/-- the chain layers `initializeChainLayers` must produce: a history with exactly one non-empty entry per
+v1 layer is followed (`alignSpec`); any other history is ignored — one chain layer per v1 layer, no
+commands -/
+def specChain (nLayers : Nat) (hist : List HEntry) : List ChainMeta :=
+  if (hist.filter (fun e => !e.empty)).length = nLayers then alignSpec hist 0 0
+  else (List.range nLayers).map fun i => ⟨i, some i, ""⟩
 
 /-- insert a layer that does not touch the file (e.g. an empty layer) before position `k` -/
 def insertKeep (h : History) (k : Nat) : History := h.take k ++ .keep :: h.drop k
